@@ -8,7 +8,8 @@
   Source-derived facts: CelloGen/Own.lean (which functions of the container sources call destruct / assign / memcpy).
 
   The property as stated is false on this tree in these places (known findings; the model mirrors them):
-    * Box_Assign / Box_Ref copy the pointer (F28): containers of Box are copied shallowly, `set` and `ref` drop the old pointee;
+    * Box_Assign copies the pointer (F28): containers of Box are copied shallowly, `set` drops the old pointee (KF-C05-box-shallow);
+    * Box_Ref overwrites the pointer without `del` of the object the Box owned (KF-C05-box-ref-drops);
     * List_Resize(n > len) links zero-filled, never constructed elements;
     * Array_Assign from a source whose `get(obj, $I(i))` raises (a Table / Tree) leaves `len` counting records that were
       never constructed;
@@ -21,15 +22,19 @@
   `C05_refused_no_effect_type` about the model), and mirrored where the container makes room first — Array_Push /
   Array_Push_At / Array_Concat (KF-C12-array-push-type, recorded under C12), Array_New (own-array-new-partial), List_Concat
   after well-typed items (KF-C12-list-concat-partial): `typedAtomic` keeps exactly those out (`C05_type_refused_atomic_exact`).
-  `inContract` excludes exactly these, the assignments that are refused after the destination was cleared, and the
-  operations the op-file interpreters do not execute at all (`bad`); the theorems named `…_partial` are proved for every
+  `inContract` excludes exactly these and the operations the op-file interpreters do not execute at all (`bad`) —
+  `assign(List, non-empty Table / Tree)`, refused after `List_Clear` with the accounting intact, is IN the contract
+  (`C05_list_assign_from_map`); `ref(box, p)` on a Box that owns an object is its own finding (KF-C05-box-ref-drops,
+  `C05_box_ref_refuted`); the theorems named `…_partial` are proved for every
   history of in-contract operations, the full statements are kept as `…_statement` and refuted (`…_refuted`) on concrete
   witnesses.  The second sentence of the property — internal moves neither duplicate nor drop an element — is the section
-  "Internal moves" (`C05_moves_*`): composition with the structural models of Table (C02) and Tree (C03).
+  "Internal moves" (`C05_moves_*`): composition with the structural models of Table (C02), Tree (C03) and Array (C04's
+  store-level block of records, `C05_moves_array`); not composed: List (node relinking stays list surgery).
 -/
 import CelloProofs.Lemmas.OwnRefused
 import CelloProofs.Lemmas.OwnProfile
 import CelloProofs.Lemmas.OwnCompose
+import CelloProofs.Lemmas.OwnSeqMoves
 import CelloProofs.Lemmas.TableIdeal
 import CelloGen.Own
 import CelloGen.Table
@@ -167,13 +172,18 @@ instantiated with token-valued records (Cello/OwnConc.lean).  `tableSet / treeSe
 mapAssign` stop being definitions of what a move does and become consequences of the representation invariants. -/
 
 open Conc in
-/-- the parameters of src/Table.c as they are now (regenerated by the translator on every run) -/
+/-- the parameters of src/Table.c as they are now (regenerated by the translator on every run) — every field of `Cfg` is
+    read from the generated file, none is left at the structure default: the strictness of the displacement test, the
+    growth of a table without slots, `Table_Ideal_Size`, the `self is obj` guard of `Table_Assign` and the key test of the
+    `Table_Get` shortcut (the same record as C02's `cfgNow`). -/
 def tableCfgNow : Cello.Table.Cfg :=
   { ge := CelloGen.Table.tieGe, growEmpty := CelloGen.Table.setGrowsEmpty,
-    ideal := Cello.Table.idealSize CelloGen.Table.primes CelloGen.Table.loadNum CelloGen.Table.loadDen }
+    ideal := Cello.Table.idealSize CelloGen.Table.primes CelloGen.Table.loadNum CelloGen.Table.loadDen,
+    selfGuard := CelloGen.Table.assignGuardsSelf, getChecksKey := CelloGen.Table.getShortcutChecksKey }
 
 /-- …satisfy what the composition needs: strict displacement test, an emptied table grows before the first `set`,
-    `Table_Ideal_Size n > n`, `Table_Assign` guards `self is obj`.  Stops checking when src/Table.c changes one of them. -/
+    `Table_Ideal_Size n > n`, `Table_Assign` guards `self is obj` (fourth conjunct: `rfl` about
+    `CelloGen.Table.assignGuardsSelf`, not about a default).  Stops checking when src/Table.c changes one of them. -/
 theorem C05_table_source_good : Cello.Table.GoodCfg tableCfgNow :=
   ⟨rfl, rfl, fun n => Cello.Table.idealSize_gt _ _ _ (by decide) (by decide) (by decide) n, rfl⟩
 
@@ -301,6 +311,37 @@ theorem C05_moves_constructors (hash : Nat → Nat) (next : Nat) (ps : List (Nat
     (∃ r, treeFillC next treeEmpty ps = some r ∧ ResRel AbsR r (mapSetMany .tree next [] ps)) :=
   ⟨tableNewC_refines C05_table_source_good next ps, treeFillC_refines C05_tree_source_good ps next treeEmpty [] absR_empty⟩
 
+/-- **C05_moves (Array).**  The second sentence of the property for Array.c — growth and shrink (`realloc` into a new
+    block of `nitems + nitems/2` resp. `nitems` records), the `memmove` of `push_at` / `pop_at` / `rem`, the in-place record
+    write of `set`, the record exchanges of `sort` — by composition with the STORE-level Array of property C04
+    (Cello/SeqStore.lean `ArrS`: cells, `memmove` as an index-range copy, `realloc` as a fresh block; validated cell by
+    cell against the C code by the C04 engine) instantiated with token-valued records.  From any store state `s` holding a
+    list-level Array `a` (`ArrS.Abs`; `new(Array, T, …)` is one: second conjunct), for every operation `op` of `SOp` (push,
+    push_at, pop, pop_at, set, rem, resize, sort, concat, assign) with any argument: the store-level step never reads an
+    unwritten or out-of-block cell, succeeds exactly when the ownership step of Cello/Own.lean does, ends in a state that
+    again satisfies `Abs`, and **the records in use afterwards are the ownership step's contents** (equal; for `sort` a
+    permutation: the two quicksort transcriptions are not identified), so `records after ++ finalised ~ records before ++
+    constructed` — no move drops or duplicates an element.  (List.c: not composed in this round — C04's node-level model is
+    being reworked by its engine; the List steps remain list surgery, see `level_note`.) -/
+theorem C05_moves_array {s : Cello.Seq.ArrS Tok} {a : Cello.Seq.Arr Tok} (h : s.Abs a) (next : Nat) (op : SOp)
+    (hraw : 0 ∉ ids a.items) :
+    (let r := arrayAbs next a.items op
+     let c := arrStoreStep s (arrayStoreOp next a.items op)
+     s.items? = some a.items ∧ c.2 ≠ .ub ∧ (c.2 = .ok () ↔ r.out = .ok) ∧
+     ∃ l a', c.1.Abs a' ∧ c.1.items? = some l ∧ a'.items = l ∧ l ~ r.val ∧ (op ≠ .sort → l = r.val) ∧
+       Conserves a.items l r.issued r.retired ∧ FreshFrom next r.issued) ∧
+    (∀ xs : List Tok, (Cello.Seq.ArrS.new xs).Abs (Cello.Seq.Arr.new xs)) :=
+  ⟨arrayMoves h next op hraw, fun xs => Cello.Seq.ArrS.new_abs xs⟩
+
+/-- the store-level Array on a concrete run: three records in a block of three; `push_at` at position 1 grows the block
+    to 6 cells (`realloc`), moves two records up (`memmove`) and writes the new one; `pop_at 0` moves three records down -/
+example :
+    let s0 := Cello.Seq.ArrS.new [(⟨1, 5⟩ : Tok), ⟨2, 3⟩, ⟨3, 7⟩]
+    let s1 := (arrStoreStep s0 (arrayStoreOp 4 [⟨1, 5⟩, ⟨2, 3⟩, ⟨3, 7⟩] (.pushAt 1 9))).1
+    let s2 := (arrStoreStep s1 (arrayStoreOp 5 [⟨1, 5⟩, ⟨4, 9⟩, ⟨2, 3⟩, ⟨3, 7⟩] (.popAt 0))).1
+    s1.items? = some [⟨1, 5⟩, ⟨4, 9⟩, ⟨2, 3⟩, ⟨3, 7⟩] ∧ s1.cells.size = 6 ∧
+    s2.items? = some [⟨4, 9⟩, ⟨2, 3⟩, ⟨3, 7⟩] ∧
+    (arrayAbs 5 [⟨1, 5⟩, ⟨4, 9⟩, ⟨2, 3⟩, ⟨3, 7⟩] (.popAt 0)).retired = [⟨1, 5⟩] := by decide
 
 /-! ## Histories -/
 
@@ -396,20 +437,63 @@ theorem C05_never_while_contained_partial {w : World} (hinv : Inv w) (op : Op) (
         nothing but that pointee is finalised (the caller deletes it): no *stored* element changes hands on an error path;
       * a refused constructor (a wrong-typed initial element / key / value) binds no name, and the identities finalised
         when the half-built object is reclaimed are exactly the ones it constructed (a repeated key among the initial
-        pairs of a Tree was assigned in place before the failing pair was reached: `updated` need not be empty there).
+        pairs of a Tree was assigned in place before the failing pair was reached: `updated` need not be empty there);
+    — with exactly one exception, named by the last disjunct (`ListClearedRefused`): `assign(List, non-empty Table / Tree)`
+    raises ValueError *after* `List_Clear`.  There the receiver HAS changed (that is C12's KF-C12-assign-clears), but the
+    ownership accounting is intact: nothing constructed, nothing assigned in place, exactly the list's old elements
+    finalised, the list empty, every other container the value it was (and `C05_conservation_partial`,
+    `C05_history_partial`, `C05_live_count_partial` hold for it like for any other in-contract call).
     (`0 < w.next` holds in every world an in-contract history reaches: `Inv.pos`.  The one error path that did leak —
     List_Push_At — was repaired by 4077d96, see `C05_list_pushat_old_order_refuted`.) -/
 theorem C05_refused_no_effect_partial {w : World} (hpos : 0 < w.next) (op : Op) (hin : inContract w op = true)
     (hr : (step w op).2.out ≠ .ok) :
-    (∀ e, lookup (step w op).1.objs e = lookup w.objs e) ∧
-    (((step w op).2.updated = [] ∧ (step w op).2.issued = [] ∧ (step w op).2.retired = []) ∨
-     ((step w op).2.updated = [] ∧ srcIsBox w op.target = true ∧
-        ∃ t, (step w op).2.issued = [t] ∧ ∀ u ∈ (step w op).2.retired, u = t) ∨
-     (op.isTypedCtor = true ∧ ids (step w op).2.retired ~ ids (step w op).2.issued)) := by
-  rcases step_refused hpos op (inContract_nkf hin) hr with ⟨h1, h2, h3, h4⟩ | ⟨hb, ht, hu, hf⟩ | ⟨hc, hp, hf⟩
-  · exact ⟨h4, Or.inl ⟨h3, h1, h2⟩⟩
-  · exact ⟨hf, Or.inr (Or.inl ⟨hu, hb, ht⟩)⟩
-  · exact ⟨hf, Or.inr (Or.inr ⟨hc, hp⟩)⟩
+    ((∀ e, lookup (step w op).1.objs e = lookup w.objs e) ∧
+     (((step w op).2.updated = [] ∧ (step w op).2.issued = [] ∧ (step w op).2.retired = []) ∨
+      ((step w op).2.updated = [] ∧ srcIsBox w op.target = true ∧
+         ∃ t, (step w op).2.issued = [t] ∧ ∀ u ∈ (step w op).2.retired, u = t) ∨
+      (op.isTypedCtor = true ∧ ids (step w op).2.retired ~ ids (step w op).2.issued))) ∨
+    ListClearedRefused w op (step w op) := by
+  rcases step_refused hpos op (inContract_nkf hin) hr with ⟨h1, h2, h3, h4⟩ | ⟨hb, ht, hu, hf⟩ | ⟨hc, hp, hf⟩ | hl
+  · exact Or.inl ⟨h4, Or.inl ⟨h3, h1, h2⟩⟩
+  · exact Or.inl ⟨hf, Or.inr (Or.inl ⟨hu, hb, ht⟩)⟩
+  · exact Or.inl ⟨hf, Or.inr (Or.inr ⟨hc, hp⟩)⟩
+  · exact Or.inr hl
+
+/-- **assign(List, non-empty Table / Tree) is in the contract** (audit 2, item 1: the exclusion used to cover every
+    sequence destination although the finding KF-C05-array-assign-partial is `site=Array_Assign` only).  In any world
+    satisfying the invariant, for a List `c` of probe elements and a non-empty Table / Tree `d`: the call is in contract,
+    raises ValueError, constructs nothing, finalises exactly the elements the List held, leaves the List empty and the
+    map untouched; identities are conserved and the invariant holds afterwards — so live = Σ len after the call
+    (`C05_live_count_partial` applies to histories that contain it; `xfListAssign` below is one). -/
+theorem C05_list_assign_from_map {w : World} (hinv : Inv w) {c d : Nat} {xs : List Tok} {mk : MapKind} {src : List KV}
+    (hc : lookup w.objs c = some (.seq .list .probe xs)) (hd : lookup w.objs d = some (.map mk src)) (hne : src ≠ []) :
+    let w' := (step w (.assign c d)).1
+    let o := (step w (.assign c d)).2
+    inContract w (.assign c d) = true ∧ o.out = .raised .valueError ∧ o.issued = [] ∧ o.updated = [] ∧ o.retired = xs ∧
+    lookup w'.objs c = some (.seq .list .probe []) ∧ lookup w'.objs d = some (.map mk src) ∧
+    allIds w'.objs ++ ids xs ~ allIds w.objs ∧ Inv w' := by
+  intro w' o
+  have hcd : c ≠ d := by intro h; rw [h, hd] at hc; cases hc
+  have hlen : src.length ≠ 0 := fun h => hne (List.length_eq_zero_iff.mp h)
+  have hnkf : noKnownFinding w (.assign c d) = true := by
+    simp [noKnownFinding, srcIsBox, crossRefused, hc, hd, Cont.isBox, hcd]
+  have hbad : (step w (.assign c d)).2.bad = false := by
+    simp [step, hc, hd, hcd, commitSeq, commit]
+  have hin : inContract w (.assign c d) = true := by simp [inContract, hnkf, hbad]
+  have hs := step_ok hinv (.assign c d) hnkf
+  have hstep : step w (.assign c d) =
+      commitSeq w c .list .probe { val := [], retired := xs, out := .raised .valueError } [c, d] false := by
+    simp [step, hc, hd, hcd, seqAssignFromMap, hlen]; rfl
+  have ho : o.out = .raised .valueError := by simp only [o, hstep]; rfl
+  have hi : o.issued = [] := by simp only [o, hstep]; rfl
+  have hu : o.updated = [] := by simp only [o, hstep]; rfl
+  have hret : o.retired = xs := by simp only [o, hstep]; simp [commitSeq, commit, Res.unit]
+  refine ⟨hin, ho, hi, hu, hret, ?_, ?_, ?_, hs.inv⟩
+  · simp only [w', hstep]; exact commitSeq_lookup_self _ _ _ _ _ _ _
+  · rw [← hd]; exact step_frame w (.assign c d) (Ne.symm hcd)
+  · have := hs.cons
+    rw [hret, hi] at this
+    simpa using this
 
 /-- **C05_refused_no_effect (type errors).**  A call with an element / key / value of the wrong type — an Int, a String,
     a Float, a Type object, NULL where the probe type is expected — outside the non-atomic territory (`typedAtomic`: not
@@ -429,10 +513,11 @@ theorem C05_refused_no_effect_type {w : World} (hpos : 0 < w.next) (c : Nat) (t 
      (t.isCtor = true ∧ ids (step w (.typed c t)).2.retired ~ ids (step w (.typed c t)).2.issued)) := by
   have hr := typed_wrong_refused (w := w) (c := c) hw hb
   refine ⟨hr, ?_⟩
-  rcases step_refused hpos (.typed c t) hat hr with ⟨h1, h2, h3, h4⟩ | ⟨hbx, _⟩ | ⟨hc, hp, hf⟩
+  rcases step_refused hpos (.typed c t) hat hr with ⟨h1, h2, h3, h4⟩ | ⟨hbx, _⟩ | ⟨hc, hp, hf⟩ | ⟨_, _, _, _, he, _⟩
   · exact ⟨h4, Or.inl ⟨h1, h2, h3⟩⟩
   · exact absurd hbx (typed_not_box hb)
   · exact ⟨hf, Or.inr ⟨by cases t <;> simp_all [Op.isTypedCtor, TCall.isCtor], hp⟩⟩
+  · cases he
 
 /-- **the non-atomic territory is exact.**  For an executed call with a wrong-typed argument, `typedAtomic` holds *exactly*
     when the call has no effect (every container the value it was; nothing constructed or finalised, or — a constructor —
@@ -754,7 +839,12 @@ theorem C05_live_count_array_assign_refuted :
     (run {} kfArrayAssign).2.map (·.out) = [.ok, .ok, .raised .valueError] ∧
     liveCount w = 4 ∧ (w.objs.map (fun cx => cx.2.toks.length)).sum = 6 := by decide
 
-/-- `Box_Ref` overwrites the pointer: the object the Box owned stays live and is owned by nothing -/
+/-- **KF-C05-box-ref-drops** (sig own-box-ref-drops, witness corpus/kf_c05_box_ref.ops; a finding of its own — it is not
+    what KF-C05-box-shallow, `site=Box_Assign`, describes).  `Box_Ref` is `b->val = val;`: `ref(box, p)` on a Box that owns
+    an object overwrites the pointer, the object the Box owned stays live and is owned by nothing (2 live, 1 held, nothing
+    finalised).  Pointer.c documents only "deleted with the Box" and its Usage example calls `ref` on a Box of stack
+    objects — `ref` is the documented way to take ownership away — but the property text says a *replaced* object is
+    finalised; `noKnownFinding (.bref _ _) = false` keeps exactly this call out of the contract. -/
 theorem C05_box_ref_refuted :
     let w := (run {} kfBoxRef).1
     liveCount w = 2 ∧ (allIds w.objs).length = 1 ∧ w.retiredLog = [] := by decide
@@ -764,13 +854,31 @@ def C05_refused_no_effect_statement : Prop :=
   ∀ (w : World) (op : Op), (step w op).2.out ≠ .ok →
     ∀ e, (lookup (step w op).1.objs e).map Cont.toks = (lookup w.objs e).map Cont.toks
 
-/-- …fails for assignment across the families from a non-empty source: `List_Assign` / `Table_Assign` / `Tree_Assign`
-    clear the destination before the source's `get` raises (ownership stays consistent — the cleared elements were
-    finalised — but a failed call changed its receiver: C12's subject; outside this contract) -/
+/-- …fails for assignment across the families from a non-empty source: `List_Assign` clears the destination before the
+    source's `get` raises.  Ownership stays consistent — the cleared elements were finalised once, live = Σ len — and the
+    call is IN this contract (`C05_list_assign_from_map`, last disjunct of `C05_refused_no_effect_partial`); only "a failed
+    call changed its receiver" fails, which is C12's subject (KF-C12-assign-clears). -/
 theorem C05_refused_no_effect_refuted : ¬ C05_refused_no_effect_statement := by
   intro h
   have := h (run {} [.newSeq 0 .list [1], .newMap 1 .table [(0, 10)]]).1 (.assign 0 1) (by decide) 0
   revert this; decide
+
+/-- `assign(List, non-empty Table)` is an in-contract history (it was excluded before the second audit): the call raises
+    ValueError, the List's element (identity 1) is finalised, the Table keeps its pair — 2 live elements, container
+    sizes summing to 2 -/
+example : allInContract {} xfListAssign ∧ (run {} xfListAssign).2.map (·.out) = [.ok, .ok, .raised .valueError] ∧
+    liveCount (run {} xfListAssign).1 = 2 ∧ ((run {} xfListAssign).1.objs.map (fun cx => cx.2.toks.length)).sum = 2 ∧
+    (run {} xfListAssign).1.retiredLog = [1] := by
+  refine ⟨by simp only [xfListAssign, allInContract]; decide, by decide, by decide, by decide, by decide⟩
+
+/-- the hypotheses of `C05_list_assign_from_map` are met by the world before the last operation of `xfListAssign` -/
+example : let w := (run {} (xfListAssign.take 2)).1
+    (lookup w.objs 0).map Cont.toks = some [⟨1, 1⟩] ∧ (lookup w.objs 1).map Cont.toks = some [⟨2, 0⟩, ⟨3, 10⟩] ∧
+    listCrossCleared w 0 1 = true ∧ crossRefused w 0 1 = false ∧ inContract w (.assign 0 1) = true := by decide
+
+/-- …whereas the same call onto an Array stays outside (exactly the territory of KF-C05-array-assign-partial) -/
+example : let w := (run {} (kfArrayAssign.take 2)).1
+    crossRefused w 0 1 = true ∧ inContract w (.assign 0 1) = false := by decide
 
 /-! ## Non-vacuity: concrete in-contract histories that exercise every kind of container -/
 
